@@ -36,9 +36,9 @@ RULE = ('seq: Hypothesis lists of up to 40 ops [put_nowait | put(timeout) | '
 ASSUMPTIONS = [
     'multi-party interleavings are whatever the OS produces (fork start '
     'method; process parties are started through billiard.Process)',
-    'a blocking/5 s get that does not deliver an item the model holds within '
-    '5-15 s counts as a lost item; consumers that stop draining for 20 s after '
-    'every producer has finished and flushed count as lost items',
+    'a get that does not deliver an item the model holds within 15 s counts '
+    'as a lost item; consumers that receive nothing for 20 s after every '
+    'producer has finished and flushed count as lost items',
     'timed get lower bound is 0.9*t - 5 ms (poll truncates to whole ms)',
     'the capacity clause in part multi is a lower bound on the number of '
     'waiting items computed from thread parties only (all consumers threads)',
@@ -53,8 +53,8 @@ BIG = 65536
 _T = [0.02, 0.03, 0.05, 0.1, 0.2]
 WAIT_BUDGET = 0.45          # nominal seconds of deliberate waiting per case
 JOIN_BLOCKED_WAIT = 0.3
-GET_PRESENT_TIMEOUT = 5.0
-BOUND = 15.0                # s; "never happened" bound for in-process waits
+BOUND = 15.0
+GET_PRESENT_TIMEOUT = BOUND                # s; "never happened" bound for in-process waits
 
 # ---------------------------------------------------------------------------
 # items
@@ -203,7 +203,7 @@ def execute_seq(case):
         if item_bytes(want) > BIG:
             labels.add('big_got')
 
-    def get_present(how='get(timeout=5)'):
+    def get_present(how='get(timeout=%g)' % GET_PRESENT_TIMEOUT):
         """an item the model holds must come out"""
         if kind == 'SQ':
             fin, got, exc = _threaded(q.get)
@@ -510,7 +510,7 @@ def multi_cases():
     })
 
 
-BACKSTOP = 90.0     # s; the arena has its own, shorter, deadlines
+BACKSTOP = 300.0    # s; the arena has its own, shorter, deadlines
 
 
 def _run_arena(case):
@@ -663,8 +663,8 @@ def execute_multi(case):
         raise HarnessError('arena aborted without a party error: %r' % (res,))
     if phase == 'stalled':
         return bad('C16/stalled', 'every producer finished and flushed, yet '
-                   'the consumers did not drain the queue within %gs; %d of '
-                   '%d items received' % (tg.STALL_DEADLINE, len(seen),
+                   'no consumer received anything for %gs; %d of %d items '
+                   'received' % (tg.STALL_DEADLINE, len(seen),
                                           sum(plan)), labels=sorted(labels))
     if phase != 'done':
         return inconclusive('arena phase %s' % phase, sorted(labels))
@@ -743,9 +743,9 @@ def run(ctx):
             slow[0] = True
         return out
 
-    ctx.explore('seq', seq_cases(), seq, n=ctx.pick(75, 2500),
+    ctx.explore('seq', seq_cases(), seq, n=ctx.pick(75, 2000),
                 shrink_budget=40)
     if ctx.violations:
         return      # a broken queue makes the multi-party runs hang, not fail
-    ctx.explore('multi', multi_cases(), execute_multi, n=ctx.pick(8, 300),
+    ctx.explore('multi', multi_cases(), execute_multi, n=ctx.pick(5, 150),
                 shrink_budget=0, reexecute_confirm=1)
